@@ -85,6 +85,86 @@ theorem history_with_marshal_isolated (h : List (List Stmt × List (String × PD
   · obtain ⟨pr, hpr, hpe⟩ := List.mem_map.mp hm
     rw [← hpe]; exact derivations_receiver_free pr hpr
 
+/-! ## branching histories (the shape the round-6 oracle drives: any step may derive from *any* earlier project) -/
+
+/-- one step of a branching history: the index of the project it derives from (0 = the original), a program, its arguments -/
+abbrev TStep := Nat × List Stmt × List (String × PData)
+
+/-- run a branching history: `acc` holds every project made so far (the original first); a step whose index is out of
+range derives from `nil` (an empty project).  Returns all projects and the write log of every step. -/
+def runTree (t : Ty) (plan : Plan) : List TStep → List GoVal → Nat → List GoVal × List (List (Nat × Cell))
+  | [], acc, _ => (acc, [])
+  | (i, prog, args) :: r, acc, n =>
+    let st := runProg t plan prog (acc.getD i .nil) args n
+    let rest := runTree t plan r (acc ++ [getVar "result" st.vars]) st.next
+    (rest.1, st.log :: rest.2)
+
+theorem below_getD {n : Nat} {acc : List GoVal} (h : ∀ v ∈ acc, Below n v) (i : Nat) : Below n (acc.getD i .nil) := by
+  rw [List.getD_eq_getElem?_getD]
+  cases hi : acc[i]? with
+  | none => intro a ha; simp [addrs] at ha
+  | some v => exact h v (List.mem_of_getElem? hi)
+
+/-- **branching histories** (any length, any receiver-free programs, any arguments, each step deriving from any earlier
+project): all projects are pairwise isolated, and the projects that existed before the history started are unchanged by
+every write of every step. -/
+theorem tree_history_isolated (t : Ty) (plan : Plan) (hd : deep t plan = true) :
+    ∀ (h : List TStep) (acc : List GoVal) (n : Nat),
+      (∀ e ∈ h, rfL e.2.1 = true) → (∀ v ∈ acc, Below n v) → List.Pairwise Isolated acc →
+      List.Pairwise Isolated (runTree t plan h acc n).1 ∧
+      ∀ log ∈ (runTree t plan h acc n).2, ∀ v ∈ acc, writes log v = v := by
+  intro h
+  induction h with
+  | nil => intro acc n _ _ hp; exact ⟨hp, by intro log hl; cases hl⟩
+  | cons e r ih =>
+    intro acc n hrf hb hp
+    obtain ⟨i, prog, args⟩ := e
+    have hbr : Below n (acc.getD i .nil) := below_getD hb i
+    have hc := prog_confined t plan prog (acc.getD i .nil) args n (hrf _ (List.mem_cons_self ..)) hd hbr
+    have hw := hc.2.2.2 "result" (by decide)
+    simp only [runTree]
+    have hb' : ∀ v ∈ acc ++ [getVar "result" (runProg t plan prog (acc.getD i .nil) args n).vars],
+        Below (runProg t plan prog (acc.getD i .nil) args n).next v := by
+      intro v hv a ha
+      rcases List.mem_append.mp hv with hm | hm
+      · have := hb v hm a ha; have := hw.1; omega
+      · rw [List.mem_singleton.mp hm] at ha; exact (hw.2 a ha).2
+    have hp' : List.Pairwise Isolated (acc ++ [getVar "result" (runProg t plan prog (acc.getD i .nil) args n).vars]) := by
+      rw [List.pairwise_append]
+      refine ⟨hp, List.pairwise_singleton _ _, ?_⟩
+      intro v hv w hw' a ha haw
+      rw [List.mem_singleton.mp hw'] at haw
+      have := hb v hv a ha; have := (hw.2 a haw).1; omega
+    have ih' := ih _ _ (fun e he => hrf e (List.mem_cons_of_mem _ he)) hb' hp'
+    refine ⟨ih'.1, ?_⟩
+    intro log hl v hv
+    rcases List.mem_cons.mp hl with rfl | hm
+    · exact hc.2.1 v (hb v hv)
+    · exact ih'.2 log hm v (List.mem_append_left _ hv)
+
+/-- … for the code in the tree now: any branching history over the nine derivations and the secret-content rendering,
+starting from one project -/
+theorem tree_history_tree (h : List TStep) (v : GoVal) (n : Nat) (hb : Below n v)
+    (hmem : ∀ e ∈ h, e.2.1 ∈ Deriv.applySecrets :: Deriv.programs.map (·.2)) :
+    List.Pairwise Isolated (runTree projTy projPlan h [v] n).1 ∧
+      ∀ log ∈ (runTree projTy projPlan h [v] n).2, writes log v = v := by
+  have hrf : ∀ e ∈ h, rfL e.2.1 = true := by
+    intro e he
+    rcases List.mem_cons.mp (hmem e he) with heq | hm
+    · rw [heq]; exact applySecrets_receiver_free
+    · obtain ⟨pr, hpr, hpe⟩ := List.mem_map.mp hm
+      rw [← hpe]; exact derivations_receiver_free pr hpr
+  have := tree_history_isolated projTy projPlan projPlan_deep.1 h [v] n hrf
+    (by intro w hw; rw [List.mem_singleton.mp hw]; exact hb) (List.pairwise_singleton _ _)
+  exact ⟨this.1, fun log hl => this.2 log hl v (List.mem_singleton.mpr rfl)⟩
+
+/-- non-vacuity: three siblings derived from the same project (`WithoutUnnecessaryResources` twice and a plain copy, all
+from #0): four projects, the three results occupy fresh, disjoint address ranges and no step is stuck -/
+example :
+    ((runTree exTy2 exPlan2 [(0, Deriv.withoutUnnecessaryResources, []), (0, Deriv.withoutUnnecessaryResources, []),
+        (0, [.deepCopy "c" (.var "p"), .assign "result" (.var "c")], [])] [exProj] 6).1.map fun v => (addrs v).foldl min 1000) = [1, 6, 15, 24] := by
+  decide +kernel
+
 /-! ## non-vacuity -/
 
 /-- a project with two secrets whose flag is unset -/
